@@ -37,9 +37,9 @@ def exhaustive(tier):
     return m
 
 
-def generate(seed, num, maxq=5, maxlen=14):
-    """TLC -simulate over GenSpec: `num` finished behaviours, each checked against AllInv."""
-    key = vlib.sha(vlib.spec_hash(*SPEC_FILES), "gen", seed, num, maxq, maxlen)
+def generate(seed, num, maxq=5, maxlen=14, spec="GenSpec"):
+    """TLC -simulate over GenSpec (or RelSpec, the release-heavy mix): `num` finished behaviours, each checked against AllInv."""
+    key = vlib.sha(vlib.spec_hash(*SPEC_FILES), "gen", seed, num, maxq, maxlen, spec)
     d = vlib.cache_dir("qrtgen", key)
     dump = os.path.join(d, "beh.ndjson")
     if os.path.exists(dump):
@@ -48,7 +48,7 @@ def generate(seed, num, maxq=5, maxlen=14):
     os.makedirs(d)
     cfg = os.path.join(d, "gen.cfg")
     with open(cfg, "w") as f:
-        f.write("SPECIFICATION GenSpec\nCONSTANTS MaxQ = %d\n MaxLen = %d\nINVARIANTS AllInv DumpDone\n" % (maxq, maxlen))
+        f.write("SPECIFICATION %s\nCONSTANTS MaxQ = %d\n MaxLen = %d\nINVARIANTS AllInv DumpDone\n" % (spec, maxq, maxlen))
     tmp = dump + ".tmp"
     r = vlib.tlc("MCQRuntime.tla", cfg, env={"QRT_DUMP": tmp}, workers=1, deadlock=False, timeout=3000,
                  simulate="num=%d" % num, extra=["-depth", "80", "-seed", str(seed)], java_opts=["-Xss256m"])
@@ -62,6 +62,8 @@ def run(tier, seed):
     ex = exhaustive(tier)
     num = 600 if tier == "quick" else 6000
     behs, cached = generate(seed, num)
+    rel, _ = generate(seed + 7, num // 3, spec="RelSpec")
+    behs = behs + rel
     jobs, infos = [], {}
     for i, b in enumerate(behs):
         src, info = qrender.render(b)
